@@ -26,6 +26,7 @@ RULE = (
 ASSUMPTIONS = [
     "equations are judged only at periods where every value they read is present in smooth_med (lags before the filter span are not returned; prepend_initial is not used)",
     "cases with a singular observation covariance (harness-side joint Gaussian) are not generated",
+    "smoother_unit_root: one exact random walk, flat steady state taken from solve_steady (judged by C05), default diffuse_method; every measurement equation carries a shock with positive std so that the prediction-error covariance is regular",
     "re-simulation starts after the maximum lag, from the smoothed values of the first periods, with smoothed shocks fed as unanticipated shocks",
     "tolerance 1e-8 * (1 + max|value|) in the units of the linear(ised) equation",
 ]
@@ -43,11 +44,22 @@ def _classify(case):
     return nmiss >= 1 and (spec["log"] or has_w), labels
 
 
-def _filter(m, spec, case, start, deviation):
+def _observed(spec, case, deviation, ys):
+    """N x nm observations (levels and linear units) around the given measurement steady state."""
+    N, nm = case["N"], len(spec["meas"])
+    lin = np.full((N, nm), np.nan)
+    for t in range(N):
+        for k in range(nm):
+            if not case["mask"][t][k]:
+                lin[t, k] = (0.0 if deviation else float(ys[k])) + case["data"][t][k]
+    return (np.exp(lin) if spec["log"] else lin), lin
+
+
+def _filter(m, spec, case, start, deviation, ys):
     import copy
     c2 = copy.deepcopy(case)
     c2["deviation"] = deviation
-    levels, lin = kc.observed_values(spec, c2)
+    levels, lin = _observed(spec, c2, deviation, ys)
     db = kc.input_databox(spec, c2, start, levels)
     span = start >> (start + case["N"] - 1)
     out = api("kalman_filter", m.kalman_filter, db, span, deviation=deviation, rescale_variance=case["rescale"])
@@ -74,7 +86,15 @@ def _check(case):
         if joint.condition(rows, vals) is None:
             return {"labels": ["singular_observation_covariance"], "nontrivial": False}
 
-    out, levels, lin = _filter(m, spec, case, start, dev)
+    xs, ys = lm.steady(spec)
+    return _judge(col, case, spec, m, start, xs, ys)
+
+
+def _judge(col, case, spec, m, start, xs, ys):
+    """Assertions 1-5 on smooth_med, given the model and a steady state (xs, ys in linear units)."""
+    N, dev, log = case["N"], case["deviation"], spec["log"]
+    mn = lm.meas_names(spec)
+    out, levels, lin = _filter(m, spec, case, start, dev, ys)
     sm = out["smooth_med"]
     p = sd.Paths(sm, spec, start, 0, N - 1)
     names = spec["names"]
@@ -142,9 +162,8 @@ def _check(case):
         resim = True
 
     # ---- 5. deviation mode = level mode minus (divided by) steady state ------
-    out2, _, _ = _filter(m, spec, case, start, not dev)
+    out2, _, _ = _filter(m, spec, case, start, not dev, ys)
     p2 = sd.Paths(out2["smooth_med"], spec, start, 0, N - 1)
-    xs, ys = lm.steady(spec)
     lev, dv = (p2, p) if dev else (p, p2)
     shocks = [s_ for s_ in lm.shock_names(spec) if s_] + [w for w in lm.mshock_names(spec) if w]
     for nm, ss in [(nm, xs[j]) for j, nm in enumerate(names)] + [(nm, ys[k]) for k, nm in enumerate(mn)]:
@@ -169,6 +188,76 @@ def _check(case):
     return {"labels": labels, "nontrivial": True}
 
 
+@__import__('hypothesis').strategies.composite
+def _unit_root_case(draw):
+    case = draw(kc.kalman_case(allow_tv_stds=False))
+    spec = case["spec"]
+    rw = draw(__import__("hypothesis").strategies.integers(0, spec["n"] - 1))
+    spec["eqs"][rw] = {"terms": [[rw, -1, 1.0]], "const": 0.0, "shock": 1.0}
+    for e in spec["eqs"]:
+        for t in e["terms"]:
+            del t[3:]
+    spec["params"] = []
+    spec["rw"] = rw
+    for e in spec["meas"]:
+        e["shock"] = 1.0                     # every observation carries noise: the prediction-error covariance is regular
+    case["std_w"] = [s_ if s_ > 0 else 0.5 for s_ in case["std_w"]]
+    case["std_u"][rw] = case["std_u"][rw] if case["std_u"][rw] > 0 else 1.0
+    return case
+
+
+def _check_unit_root(case):
+    col = Collector()
+    prep = prepare_unit_root(case)
+    if isinstance(prep, dict):
+        return prep
+    case, spec, m, start, xs, ys = prep
+    return _judge(col, case, spec, m, start, xs, ys)
+
+
+def prepare_unit_root(case):
+    """Build and solve the unit-root model of a case: (case, spec, model, start, xs, ys) or a label dict."""
+    import irispie as ir
+    spec = case["spec"]
+    case = dict(case, tv={})
+    if not lm.unit_root_domain(spec, 1, band=kc.MARGIN):
+        return {"labels": ["model_not_in_domain"], "nontrivial": False}
+    start = sd.start_period(case["freq"])
+    linear = not spec["log"]
+    m = api("from_string", ir.Simultaneous.from_string, lm.source(spec), linear=linear, flat=True)
+    if not linear:
+        m.assign(**{nm: 1.0 for nm in spec["names"] + lm.meas_names(spec)})
+    m.assign(**kc.assigned_stds(spec, case))
+    try:
+        m.solve_steady()
+        m.solve()
+    except Exception:  # noqa: BLE001 - steady state and solution of unit-root models are judged by C05/C01
+        return {"labels": ["steady_or_solve_failed"], "nontrivial": False}
+    lv = m.get_steady_levels()
+    vals = [float(lv[nm]) for nm in spec["names"] + lm.meas_names(spec)]
+    if any(math.isnan(v) for v in vals) or (spec["log"] and any(not (1e-6 < v < 1e6) for v in vals)):
+        return {"labels": ["degenerate_steady"], "nontrivial": False}
+    f = math.log if spec["log"] else float
+    xs = [f(float(lv[nm])) for nm in spec["names"]]
+    ys = [f(float(lv[nm])) for nm in lm.meas_names(spec)]
+    # The level of a random walk is pinned down by the data only: the level/deviation relation needs at least one
+    # observation of a measurement variable that carries the permanent component (harness: 60-period response)
+    Lmax, Fmax = lm.max_lag_lead(spec)
+    dbr = sd.steady_db(m, spec, start, -max(Lmax, 1), 60 + Fmax, True)
+    dbr[lm.shock_names(spec)[spec["rw"]]][start] = 1.0
+    resp = m.simulate(dbr, start >> (start + 59), method="first_order", deviation=True)
+    loads = []
+    for k, nm in enumerate(lm.meas_names(spec)):
+        r = float(resp[nm].get_data(start + 59)[0, 0])
+        r = math.log(r) if (spec["log"] and r > 0) else r
+        loads.append(abs(r) > 1e-6)
+    identified = any(loads[k] and not case["mask"][t][k] for t in range(case["N"]) for k in range(len(loads)))
+    if not identified:
+        return {"labels": ["random_walk_level_not_identified"], "nontrivial": False}
+    return case, spec, m, start, xs, ys
+
+
 SUBCHECKS = [
     HypSub("smoother", lambda: kc.kalman_case(allow_tv_stds=False), _check, _classify, budget={"quick": 900, "thorough": 12000}),
+    HypSub("smoother_unit_root", _unit_root_case, _check_unit_root, _classify, budget={"quick": 500, "thorough": 8000}),
 ]
